@@ -510,6 +510,7 @@ def valid_content(ctx, prog):
     notes = []
     alls = [(i, t) for i, t in f.calls() if callee_of(t).endswith("Iterator>::all") or callee_of(t).endswith("Iterator::all")]
     per_mask = union = False
+    flag_form = None
     acc_txt = None
     if len(alls) == 1:
         i, t = alls[0]
@@ -569,6 +570,49 @@ def valid_content(ctx, prog):
                                 x, y = y, x
                             if const_value(y) == 0 and x[0] == "bin" and x[1] == "BitAnd" and sorted([canon(strip(x[2])), canon(strip(x[3]))]) == pair:
                                 per_mask = True
+                    if not per_mask:
+                        # flag form: `let ok = (acc & m) == 0; acc |= m; if !ok { flag = false; break }` ... `flag && acc == expected`
+                        tests = []
+                        for tb, tj, ts in f.stmts():
+                            if ts["s"] == "assign" and not ts["lhs"]["p"] and ts["rv"]["r"] == "bin" and ts["rv"]["op"] in ("Eq", "Ne"):
+                                tv = strip(sy.rvalue(ts["rv"]))
+                                x, y = strip(tv[2]), strip(tv[3])
+                                if const_value(x) == 0:
+                                    x, y = y, x
+                                if const_value(y) == 0 and x[0] == "bin" and x[1] == "BitAnd" and sorted([canon(strip(x[2])), canon(strip(x[3]))]) == pair:
+                                    # computed on the accumulator BEFORE this round's update
+                                    before = (tb == bi and tj < [k for k, st2 in enumerate(f.blocks[bi]["stmts"]) if st2 is s][0]) or (tb != bi and f.dominates(tb, bi))
+                                    if before:
+                                        tests.append((ts["lhs"]["l"], ts["rv"]["op"], tb))
+                        nexts2 = [nb for nb, nt in f.calls() if callee_of(nt).endswith("::next")]
+                        if len(tests) == 1 and len(nexts2) == 1:
+                            tl, top, tb = tests[0]
+                            hdr = nexts2[0]
+                            latches = [b2 for b2 in f.live if hdr in f.lsuccs(b2) and f.dominates(hdr, b2)]
+
+                            def passed(blk, want):
+                                for c in path_conds(f, sy, blk):
+                                    a = bool_atom(c)
+                                    if a and a[0] == "truth" and strip(a[1])[0] == "local":
+                                        # the test value itself, or a copy / negation of it
+                                        src = strip(a[1])
+                                        if src[1] == tl and a[2] == (want if top == "Eq" else not want):
+                                            return True
+                                    if a and a[0] in ("Eq", "Ne") and const_value(strip(a[2])) == 0 and strip(a[1])[0] == "bin" and strip(a[1])[1] == "BitAnd":
+                                        if (a[0] == "Eq") == want:
+                                            return True
+                                return False
+                            flags = [l2 for l2, ds in f.defs.items() if f.locals[l2]["ty"] == "bool" and len(ds) == 2 and
+                                     sorted(const_value(strip(sy.rvalue(d[3]))) if d[2] == "rv" else -1 for d in ds) == [0, 1]]
+                            okflag = False
+                            for fl in flags:
+                                zero = [d[0] for d in f.defs[fl] if const_value(strip(sy.rvalue(d[3]))) == 0]
+                                if zero and passed(zero[0], False):
+                                    okflag = True
+                                    flag_local = fl
+                            if latches and all(passed(b2, True) for b2 in latches) and okflag:
+                                per_mask = True
+                                flag_form = flag_local
                     notes.append("update %s under %s" % (canon(up), per_mask))
     # results: every non-false one is `acc == u64_lsb_ones(len as u32)` reached with the scan passed and len <= 64
     res_ok = True
@@ -604,6 +648,9 @@ def valid_content(ctx, prog):
                 scan = True
         if len(alls) != 1:
             scan = per_mask   # loop form: the failing test leaves the loop with `false`; checked below through the constant results
+            if flag_form is not None:
+                scan = any((bool_atom(c) or (None,))[0] == "truth" and strip(bool_atom(c)[1])[0] == "local" and strip(bool_atom(c)[1])[1] == flag_form and bool_atom(c)[2] is True
+                           for c in conds)
         res_ok = res_ok and guard and scan
         if not (guard and scan):
             notes.append("result site bb%d: len guard %s, scan passed %s" % (bi, guard, scan))
